@@ -192,7 +192,67 @@ def reject_items(seeds):
     return out
 
 
+# ---------------------------------------------------------------- (d) documented configuration features, alone and in pairs
+def feature_configs(path):
+    sev = {"severity": {"Todo": {"type": "error"}, "Future": {"type": "warning"}}}
+    F = {
+        "user_severity_rule": dict(sev, rule={"entity_004": {"severity": "Future"}, "port_007": {"severity": "Todo"}}),
+        "user_severity_global": dict(sev, rule={"global": {"severity": "Future"}}),
+        "user_severity_group": dict(sev, rule={"group": {"case": {"severity": "Todo"}, "whitespace": {"severity": "Future"}}}),
+        "user_severity_file_rules": dict(sev, file_rules=[{path: {"rule": {"entity_004": {"severity": "Future"}, "whitespace_001": {"severity": "Todo"}}}}]),
+        "user_severity_file_list": dict(sev, file_list=[{path: {"rule": {"entity_004": {"severity": "Todo"}}}}]),
+        "file_rules_plain": {"file_rules": [{path: {"rule": {"entity_004": {"disable": True}, "length_001": {"severity": "Error", "length": 40}}}}]},
+        "skip_phase": {"skip_phase": [2, 5, 7]},
+        "linesep": {"linesep": "\r\n"},
+        "indent": {"indent": {"tokens": {"use_clause": {"keyword": {"token_if_no_matching_library_clause": "current"}}, "process_statement": {"begin_keyword": {"token": "current", "after": "+2"}}}}},
+        "pragma_single_only": {"pragma": {"patterns": {"single": ["^\\s*--\\s+mytool\\s+\\w+\\s*$"], "open": [], "close": []}}},
+        "pragma_single_key": {"pragma": {"patterns": {"single": ["^\\s*--\\s+mytool\\s+\\w+\\s*$"]}}},
+        "pragma_open_close": {"pragma": {"patterns": {"open": ["^\\s*--\\s+mytool\\s+off\\s*$"], "close": ["^\\s*--\\s+mytool\\s+on\\s*$"]}}},
+        "global_indent": {"rule": {"global": {"indent_size": 4, "indent_style": "smart_tabs"}}},
+        "group_disable": {"rule": {"group": {"case": {"disable": True}, "alignment": {"fixable": False}}}},
+        "user_error_message": {"rule": {"global": {"user_error_message": "see the style guide"}}},
+    }
+    return F
+
+
+def exec_feature(item):
+    r = explore.Result()
+    lines = universe.materialise(item)
+    cla, oConfig, path = drivers.build_config(None, None, (), lines=lines)
+    F = feature_configs(path)
+    names = item["features"]
+    cfgs = [F[n] for n in names]
+    for fix in (False, True):
+        it = dict(item, lines=lines, cfg=cfgs, style=item.get("style"))
+        ex = drivers.d_pipe(it, [], fix=fix, extra_argv=[] if fix else ["-ap"])
+        r.transitions += ex.transitions
+        if ex.outcome in ("exception", "timeout"):
+            r.violations.append({"key": (common.exc_key(ex), "configuration:" + "+".join(names)), "detail": {"exception": ex.exception, "fix": fix}, "item": common.strip_item(item)})
+            break
+        if ex.outcome == "config_exit":
+            r.violations.append({"key": ("valid_configuration_rejected", "+".join(names)), "detail": {"output": str(ex.stdout)[:300]}, "item": common.strip_item(item)})
+            break
+    r.nontrivial = item["id"]
+    return r
+
+
+def feature_items(tier):
+    import itertools
+
+    names = list(feature_configs("x"))
+    seeds = [s for s in corpus.small_slice(max_lines=25) if s.startswith("fix/")][:: (12 if tier == "quick" else 3)] + ["gen/conc/proc", "gen/unit/entgen", "fix/comment/rule_010", "fix/pragma/rule_300"]
+    out = []
+    combos = [(n,) for n in names] + [c for c in itertools.combinations(names, 2) if tier != "quick" or c[0].startswith("user_severity")]
+    for s in seeds:
+        for c in combos:
+            for st in (None, "jcl") if len(c) == 1 else (None,):
+                out.append(dict(universe.mk(s, (), st), mode="feature", features=list(c), id=f"{s}%{st}#cfg:{'+'.join(c)}"))
+    return out
+
+
 def execute(item):
+    if item.get("mode") == "feature":
+        return exec_feature(item)
     if "mut" in item:
         return exec_reject(item)
     if item.get("mode") == "isolated":
@@ -222,17 +282,19 @@ def main(tier):
     m1 = explore.run(iso + k1, execute, horizon=120.0, label=PROP + "a", chunk=4)
     m2 = explore.run(pipe, execute, horizon=30.0, label=PROP + "b")
     m3 = explore.run(rej, execute, horizon=6.0, label=PROP + "c", chunk=16)
+    m4 = explore.run(feature_items(tier), execute, horizon=60.0, label=PROP + "d", chunk=8)
     # watchdog expiries that the drivers did not attribute themselves
-    for m in (m1, m2, m3):
+    for m in (m1, m2, m3, m4):
         for t in m.timeouts:
             print(f"NOTE: watchdog expired outside an attributed call: {t}")
     return report.finish(
-        PROP, tier, "exploration", [m1, m2, m3], t0,
+        PROP, tier, "exploration", [m1, m2, m3, m4], t0,
         "(a) every live rule analysed, and fixed when it reports, in isolation on every seed (and under every K1 option value on its own fixture); (b) the whole --fix pipeline on every "
-        "variant of the shared fix-run universe; (c) every single-token mutation (delete, duplicate, swap, replace by ; ( ) end is begin) of small seeds through the real main() followed by a good file; "
+        "variant of the shared fix-run universe; (d) documented configuration features (user-defined severities at every level incl. per-file, file_rules, skip_phase, linesep, indent and pragma "
+        "overrides, global/group attributes) alone and in pairs, check and fix, on probe seeds; (c) every single-token mutation (delete, duplicate, swap, replace by ; ( ) end is begin) of small seeds through the real main() followed by a good file; "
         "non-trivial = (rule, option) pairs that reported in (a), variants that fix changed in (b), mutants that were rejected in (c)",
         ["horizon: 120 s per seed in (a), 30 s per pipeline run, 6 s per mutant; exceeding it is reported as a hang", "mutants the classifier accepts impose no obligation in (c)"],
-        extra_cov={"isolated_rule_applications": m1.transitions, "pipeline_runs": m2.evaluations, "mutants": m3.evaluations, "mutants_rejected": m3.extra.get("rejected_mutants", 0),
+        extra_cov={"isolated_rule_applications": m1.transitions, "pipeline_runs": m2.evaluations, "mutants": m3.evaluations, "configuration_feature_runs": m4.evaluations, "mutants_rejected": m3.extra.get("rejected_mutants", 0),
                    "mutants_accepted": m3.extra.get("accepted_mutants", 0), "bound": common.bound_text(tier, KQ, KT)},
         reproduce=reproduce,
         repro_horizon=150.0,
